@@ -72,7 +72,9 @@ PROPERTIES = {
         functions=_LOCAL + ['structural_fields:Move.unpack', 'field:Data._unpack_with_string_marker',
                             'field:Data._unpack_with_regexp_marker', 'packet:Packet.unpack_impl',
                             # control decisions of containers depend on their callbacks only, never on what follows
-                            'structural_fields:Optional.unpack', 'structural_fields:Sequence.unpack'],
+                            'structural_fields:Optional.unpack', 'structural_fields:Sequence.unpack',
+                            # the entry point hands the caller's buffer and offset on unchanged (no re-basing of positions)
+                            'packet:Packet.unpack'],
         trusted_base=_COMMON_TRUST + ['ghost clients only call repository functions through their contracts'],
         assumptions=[_COMPOSITION_NOTE,
                      'delimited Data: locality follows from the search-window clauses of the C06 contract (first occurrence at or after the cursor); no separate embedded-parse lemma yet',
@@ -86,7 +88,9 @@ PROPERTIES = {
                    'field:Int.pack_regexp', 'field:Data.pack_regexp',
                    'packet:Packet.as_regular_expression_impl', 'packet:Packet.as_regular_expression',
                    # Bits.pack_regexp (bounded) lays the bits out MSB first over one big-endian integer: the layout _compile establishes
-                   'field:Bits._compile'],
+                   'field:Bits._compile',
+                   # the literal piece of a delimited byte string re-emits the delimiter these two decoders remember (and only they may set it)
+                   'field:Data._unpack_with_string_marker', 'field:Data._unpack_with_regexp_marker'],
         lemmas=['C18.int_pieces', 'C18.data_pieces', 'C18.not_consumed_delimiter', 'C18.constrained_any'],
         native_probe='probe_c18',
         trusted_base=_COMMON_TRUST + [
